@@ -26,6 +26,7 @@ pub fn init_process(with_sim: bool) {
     runner::install_panic_hook();
     track::register_static_image();
     if with_sim {
+        track::enable_delayed_frees();
         sim::install();
         interp::warmup();
     }
